@@ -181,6 +181,9 @@ def run_cbmc(cfile, entry, unwind, unwindset=(), timeout=900, mem_gb=12, extra=(
         fn = 'run_' + entry
     cmd = ['cbmc', cfile, os.path.join(VERIF, 'rt', 'rt.c'), '-I', os.path.join(VERIF, 'rt'), '--function', fn,
            '--unwind', str(unwind)] + CBMC_BASE + list(extra)
+    if '--object-bits' in extra:                      # an obligation with more addressed objects overrides the default
+        k = cmd.index('--object-bits')
+        del cmd[k:k + 2]
     if unwindset:
         cmd += ['--unwindset', ','.join(unwindset)]
     if trace:
